@@ -1,7 +1,7 @@
 /-
 Model of the embedded LP solver `/repo/src/lpsolver/*` — certificate level.
 
-The simplex pivoting / LU code is NOT modelled.  What is modelled:
+The pivoting rules are modelled in `Model/Simplex.lean` (the floating-point LU is not).  Here:
 
 * `Problem`            — `LpProblem` (max c·x s.t. Ax ≤ b, l ≤ x ≤ u; `none` = +∞ upper bound);
 * `validate`           — `LpProblem::validate` (types.rs:176-256), first error in the code's order,
